@@ -17,6 +17,7 @@ FINDINGS = os.path.join(VERIF, "known_findings.json")
 
 _scratch = None
 _owner = None
+_root = None
 
 
 def ncpu():
@@ -28,12 +29,20 @@ def ncpu():
 
 def scratch():
     """Per-process scratch directory under /dev/shm (never /tmp, never the user's data dir)."""
-    global _scratch, _owner
+    global _scratch, _owner, _root
     if _scratch is None or _owner != os.getpid():
+        if _scratch is not None and _root is not None and os.path.isdir(_root):
+            # a forked worker (pool workers end without running atexit handlers): its scratch lives inside the scratch of
+            # the process that started the check, which removes the whole tree when it exits
+            _scratch = os.path.join(_root, "child.%d" % os.getpid())
+            os.makedirs(_scratch, exist_ok=True)
+            _owner = os.getpid()
+            return _scratch
         base = "/dev/shm" if os.path.isdir("/dev/shm") and os.access("/dev/shm", os.W_OK) else VERIF + "/out"
         _scratch = os.path.join(base, "awverif.%d" % os.getpid())
         os.makedirs(_scratch, exist_ok=True)
         _owner = os.getpid()
+        _root = _scratch
         atexit.register(_cleanup, _scratch, os.getpid())
     return _scratch
 
